@@ -216,6 +216,8 @@ structure Bld where
   newSvc : AMap SvcKey SvcInfo
   newEps : AMap String (List Ep)
   nextId : Nat
+  /-- the IDs handed out by `newSvcID` during this apply, latest first. -/
+  fresh : List Nat
 deriving Repr, Inhabited
 
 def affOf (svc : Svc) : Nat := svc.affinity.getD 0
@@ -282,16 +284,30 @@ def svcEqual (a b : Svc) : Bool :=
   a.proto == b.proto && cidrEqual a.srcRanges b.srcRanges && a.hcNodePort == b.hcNodePort &&
   a.nodePort == b.nodePort && a.extLocal == b.extLocal && a.intLocal == b.intLocal
 
-/-- `applySvc`: keep the previous ID iff the service port is unchanged, else `newSvcID`. -/
-def applySvc (prevSvc : AMap SvcKey SvcInfo) (b : Bld) (skey : SvcKey) (svc : Svc) (eps : List Ep) : Bld :=
-  let keep : Option Nat := match prevSvc.get skey with
-    | some old => if svcEqual old.svc svc then some old.id else none
-    | none => none
-  let (id, b0) := match keep with
-    | some id => (id, b)
-    | none => (b.nextId, { b with nextId := b.nextId + 1 })
-  let (b1, cnt, loc) := updateService b0 skey svc id eps
-  { b1 with newSvc := b1.newSvc.set skey { id, count := cnt, lcl := loc, svc } }
+/-- the ID `applySvc` keeps: the previous one iff `ServicePortEqual(old.svc, sinfo)`. -/
+def keepId (prevSvc : AMap SvcKey SvcInfo) (skey : SvcKey) (svc : Svc) : Option Nat :=
+  match prevSvc.get skey with
+  | some old => if svcEqual old.svc svc then some old.id else none
+  | none => none
+
+/-- `applySvc` once the ID is chosen: `updateService`, then record the `svcInfo`. -/
+def applySvcWith (b : Bld) (skey : SvcKey) (svc : Svc) (id : Nat) (eps : List Ep) : Bld :=
+  let r := updateService b skey svc id eps
+  { r.1 with newSvc := r.1.newSvc.set skey { id, count := r.2.1, lcl := r.2.2, svc } }
+
+/-- `applySvc`: keep the previous ID iff the service port is unchanged, else `newSvcID`.
+
+The Go loop ranges over `state.SvcMap` (and over the per-node map of `expandNodePorts`) in an
+arbitrary order, so *which* fresh ID a new service key receives is arbitrary.  `hint` resolves
+that choice (the harness reads it off the real run); without a hint entry the next ID is used.
+`Syncer.apply` checks that the hinted IDs are exactly the block `nextSvcID` would hand out. -/
+def applySvc (prevSvc : AMap SvcKey SvcInfo) (hint : AMap SvcKey Nat) (b : Bld) (skey : SvcKey) (svc : Svc)
+    (eps : List Ep) : Bld :=
+  match keepId prevSvc skey svc with
+  | some id => applySvcWith b skey svc id eps
+  | none =>
+    let id := (hint.get skey).getD b.nextId
+    applySvcWith { b with nextId := b.nextId + 1, fresh := id :: b.fresh } skey svc id eps
 
 inductive DType where | ext | np | lb
 deriving DecidableEq, Repr
@@ -301,15 +317,19 @@ def DType.extra : DType → Nat → Extra
   | .np, ip => .nodePort ip
   | .lb, ip => .lb ip
 
+/-- the flags `applyDerived` puts on a derived frontend. -/
+def derivedFlags (t : DType) (sinfo : Svc) : Nat :=
+  match t with
+  | .ext => 0
+  | _ => (if sinfo.extLocal then flgExternalLocal else 0) ||| (if sinfo.intLocal then flgInternalLocal else 0)
+
 /-- `applyDerived` for ExternalIP / NodePort / LoadBalancer frontends (`sinfo` has the derived
 address and port already substituted). -/
 def applyDerived (b : Bld) (sname : String) (t : DType) (sinfo : Svc) : Bld :=
   match b.newSvc.get ⟨sname, .prim⟩ with
   | none => b
   | some p =>
-    let flags := match t with
-      | .ext => 0
-      | _ => (if sinfo.extLocal then flgExternalLocal else 0) ||| (if sinfo.intLocal then flgInternalLocal else 0)
+    let flags := derivedFlags t sinfo
     let b1 := if (t = .lb || t = .ext) && !sinfo.srcRanges.isEmpty
       then writeLBSrc b sinfo p.id p.count p.lcl flags
       else writeSvc b sinfo p.id p.count p.lcl flags
@@ -331,7 +351,7 @@ def expandNodePorts (routes : AMap Nat Route) (eps : List Ep) : List (Nat × Lis
 def podNPIP : Nat := 0xffffffff
 
 /-- body of the `for sname, sinfo := range state.SvcMap` loop of `apply`. -/
-def applyService (s : Syncer) (st : KState) (b : Bld) (sname : String) (svc : Svc) : Bld :=
+def applyService (s : Syncer) (st : KState) (hint : AMap SvcKey Nat) (b : Bld) (sname : String) (svc : Svc) : Bld :=
   let all := (st.eps.get sname).getD []
   let (eps, applied) := filterTopo all svc.topoMode st.zone
   let eps := if applied then eps else filterTD all st.host st.zone
@@ -340,7 +360,7 @@ def applyService (s : Syncer) (st : KState) (b : Bld) (sname : String) (svc : Sv
       let fb := apiFallback s.prevEps sname
       if !fb.isEmpty then fb else eps
     else eps
-  let b := applySvc s.prevSvc b ⟨sname, .prim⟩ svc eps
+  let b := applySvc s.prevSvc hint b ⟨sname, .prim⟩ svc eps
   let b := svc.lbVIPs.foldl (fun b ip => applyDerived b sname .lb { svc with clusterIP := ip }) b
   let b := svc.extIPs.foldl (fun b ip => applyDerived b sname .ext { svc with clusterIP := ip }) b
   if svc.nodePort != 0 then
@@ -349,14 +369,18 @@ def applyService (s : Syncer) (st : KState) (b : Bld) (sname : String) (svc : Sv
       else applyDerived b sname .np { svc with clusterIP := ip, port := svc.nodePort }) b
     if svc.intLocal then
       (expandNodePorts s.routes eps).foldl (fun b g =>
-        applySvc s.prevSvc b ⟨sname, .npRemote g.1⟩ { svc with clusterIP := g.1, port := svc.nodePort } g.2) b
+        applySvc s.prevSvc hint b ⟨sname, .npRemote g.1⟩ { svc with clusterIP := g.1, port := svc.nodePort } g.2) b
     else b
   else b
 
 /-- the desired maps and bookkeeping computed by `apply` before anything is written. -/
-def buildDesired (s : Syncer) (st : KState) : Bld :=
-  st.svcs.foldl (fun b p => applyService s st b p.1 p.2)
-    { des := ⟨[], []⟩, newSvc := [], newEps := [], nextId := s.nextId }
+def buildDesired (s : Syncer) (st : KState) (hint : AMap SvcKey Nat) : Bld :=
+  st.svcs.foldl (fun b p => applyService s st hint b p.1 p.2)
+    { des := ⟨[], []⟩, newSvc := [], newEps := [], nextId := s.nextId, fresh := [] }
+
+/-- the fresh IDs of an apply are a permutation of the block `[nextId, nextId + n)`. -/
+def freshOk (nextId : Nat) (fresh : List Nat) : Bool :=
+  fresh.all (fun i => nextId ≤ i && i < nextId + fresh.length) && fresh.Nodup
 
 /-! ## Start-up: adopt IDs found in the maps (`startupBuildPrev`, `matchBpfSvc`) -/
 
@@ -446,9 +470,11 @@ def runWrites (d : DP) (ws : List Write) : DP := ws.foldl Write.run d
 def pendingDels {K V : Type} [DecidableEq K] (dp des : AMap K V) : List K :=
   (dp.filter (fun kv => !des.has kv.1)).map (·.1)
 
-/-- `PendingUpdates` of a CachingMap: desired pairs whose dataplane value is missing or differs. -/
+/-- `PendingUpdates` of a CachingMap: desired pairs whose dataplane value is missing or differs.
+(`des.get kv.1 == some kv.2` is true for every entry of a map built with `set`; it makes the
+definition independent of that representation invariant.) -/
 def pendingUpds {K V : Type} [DecidableEq K] [DecidableEq V] (dp des : AMap K V) : List (K × V) :=
-  des.filter (fun kv => dp.get kv.1 != some kv.2)
+  des.filter (fun kv => des.get kv.1 == some kv.2 && dp.get kv.1 != some kv.2)
 
 /-- phase 1 `bpfSvcs.ApplyDeletionsOnly`. -/
 def phase1 (d n : DP) : List Write := (pendingDels d.F n.F).map .delF
@@ -476,15 +502,26 @@ def schedule (d n : DP) (failPhase : Nat) : List (List Write) × Bool :=
   if failPhase = 4 && !p4.isEmpty then ([p1, p2, p3], false) else
   ([p1, p2, p3, p4], true)
 
-/-- `Syncer.Apply`: returns the new syncer, whether it succeeded, and the writes per phase. -/
-def Syncer.apply (s : Syncer) (st : KState) (failPhase : Nat) : Syncer × Bool × List (List Write) :=
+structure ApplyResult where
+  syncer : Syncer
+  /-- `Apply` returned nil. -/
+  ok : Bool
+  /-- the successful map writes, phase by phase. -/
+  phases : List (List Write)
+  /-- the ID hint was a legal outcome of `newSvcID` (always true without a hint). -/
+  hintOk : Bool
+deriving Repr, Inhabited
+
+/-- `Syncer.Apply`. -/
+def Syncer.apply (s : Syncer) (st : KState) (hint : AMap SvcKey Nat) (failPhase : Nat) : ApplyResult :=
   let s1 := if s.synced then { s with prevSvc := s.newSvc, prevEps := s.newEps }
             else startupBuildPrev s st
-  let b := buildDesired s1 st
-  let (phases, ok) := schedule s1.dp b.des failPhase
-  let dp := runWrites s1.dp phases.flatten
-  ({ s1 with newSvc := b.newSvc, newEps := b.newEps, nextId := b.nextId, dp,
-             synced := s1.synced || ok }, ok, phases)
+  let b := buildDesired s1 st hint
+  let sch := schedule s1.dp b.des failPhase
+  let dp := runWrites s1.dp sch.1.flatten
+  { syncer := { s1 with newSvc := b.newSvc, newEps := b.newEps, nextId := b.nextId, dp,
+                        synced := s1.synced || sch.2 },
+    ok := sch.2, phases := sch.1, hintOk := freshOk s1.nextId b.fresh }
 
 /-- the frontend → backends consistency the property is about. -/
 def consistentB (d : DP) : Bool :=
